@@ -44,7 +44,8 @@ CLAIMS = {
  'C10': ('RNSTool::divide_and_round_q_last_inplace and mod_t_and_divide_q_last_inplace are proved, for every base size, degree, coefficient and canonical input, to return in each word exactly the residue formula '
          'of the algorithm (all lazy additions shown free of overflow, every slice in bounds), and two spec-level theorems give the integer reading: if the input residues are those of one integer X then each output word is '
          'floor((X + q_k/2)/q_k) mod q_i (round to nearest, identically in every component), respectively Y mod q_i with q_k*Y = X (mod t) for the BGV variant. '
-         'ASSUMED: the constants RNSTool::new stores (inv_q_last_mod_q etc.) equal their definitions. Not covered yet: NTT-form variants, decompose/compose (CRT), fast base conversion, the BEHZ tools (sm_mrq, fast_floor, fastbconv_sk), scale-and-round decryption, exact_convey (uses f64).', '5 C10'),
+         'The NTT-form variants (divide_and_round_q_last_ntt_inplace, mod_t_and_divide_q_last_ntt_inplace) are proved word by word against the same formulas with the forward/inverse transforms as uninterpreted functions of (table, input) with their documented ranges: the rounding constant q_k/2, its correction, the negation and q_k^-1 steps and the table index used for each component are pinned. '
+         'ASSUMED: the constants RNSTool::new stores (inv_q_last_mod_q etc.) equal their definitions; linearity of the NTT (so the NTT-form result is the transform of the coefficient-form result) is not used or proved. Not covered yet: decompose/compose (CRT), fast base conversion, the BEHZ tools (sm_mrq, fast_floor, fastbconv_sk), scale-and-round decryption, exact_convey (uses f64).', '5 C10'),
  'C15': ('Serializers without context (scalars, Vec<T>, Modulus, ParmsID, SchemeType, Plaintext, EncryptionParameters, byte-width packing helpers) are verified '
          'against an abstract model of std::io::{Read,Write} quantified over all implementations: Ok implies the complete encoding was written / exactly one encoding '
          'consumed, and no unwrap/panic is reachable. Context-dependent objects (ciphertexts, keys, containers) are not covered.', '5 C15'),
